@@ -61,7 +61,10 @@ class RemoveAnyNeverTransformer(cst.CSTTransformer):
   def leave_AnnAssign(
       self, original_node: cst.AnnAssign, updated_node: cst.AnnAssign
   ) -> cst.CSTNode:
-    if self._is_any_or_never(original_node.annotation):
+    if self._is_any_or_never(original_node.annotation.annotation):
+      if updated_node.value is None:
+        # A bare declaration (`x: Any`) carries nothing but the annotation.
+        return cst.RemoveFromParent()
       return cst.Assign(
           targets=[cst.AssignTarget(target=updated_node.target)],
           value=updated_node.value,
